@@ -28,6 +28,9 @@ func runC07(w *World) {
 
 	nc := 2 + w.knob("clients", 3)
 	total := []int{10, 20, 30, 40}[w.knob("total", 4)]
+	if w.deep() && w.knob("deep", 3) == 0 {
+		nc, total = 5, 70
+	}
 	per := (total + nc - 1) / nc
 	style := w.knob("style", 3)
 	nodl := w.knob("nodeadlines", 2) == 1
